@@ -104,12 +104,16 @@ func c03RefStep(o c03Op, s []byte) (byte, []byte, []byte) {
 
 // ---- the real buffer ----
 
+var c03Watchdog atomic.Int64
+
+func init() { c03Watchdog.Store(int64(2 * time.Second)) }
+
 type c03Real struct {
 	b *trzsz.VerifBuffer
 }
 
 // read issues one read.  All chunks are queued already.  With sure = true the caller
-// knows (from the flat reference) that the read completes: a 5 s watchdog timer is used
+// knows (from the flat reference) that the read completes: a watchdog timer (2 s, halved after every firing) is used
 // and its firing is reported as "T".  Otherwise the timeout channel is fired by a helper
 // exactly when the queue has been emptied: the reader consults the timeout only inside
 // nextBuffer, i.e. when it needs a chunk that is not there, so the outcome is
@@ -119,7 +123,7 @@ func (r *c03Real) read(o c03Op, sure bool) (string, []byte) {
 	var done atomic.Bool
 	var tm *time.Timer
 	if sure {
-		tm = time.NewTimer(5 * time.Second)
+		tm = time.NewTimer(time.Duration(c03Watchdog.Load()))
 		to = tm.C
 	} else if r.b.QueueLen() == 0 {
 		ch := make(chan time.Time, 1)
@@ -156,6 +160,11 @@ func (r *c03Real) read(o c03Op, sure bool) (string, []byte) {
 		return "d", append([]byte(nil), data...)
 	case "timeout":
 		if sure {
+			// a read that should have completed waited: shorten the watchdog so that a
+			// systematically broken build is reported quickly (floor 2 ms)
+			if w := c03Watchdog.Load(); w > int64(2*time.Millisecond) {
+				c03Watchdog.Store(w / 2)
+			}
 			return "T", nil
 		}
 		return "B", nil
@@ -460,6 +469,9 @@ func c03GenBuffer(c *ctx) {
 				}
 			}
 			for pi, p := range paths {
+				if len(out.viol) > 20 {
+					return
+				}
 				res, pops := real.run(cs, stream, p, true)
 				if got := c03ResStr(c03Truncate(res)); got != flatRes[pi] {
 					vio(c03Key("chunking", stream, c03OpsStr(p)), "two chunkings of the same stream give different lines/blocks on the real buffer",
@@ -502,7 +514,7 @@ func c03GenBuffer(c *ctx) {
 		for i := range reals {
 			reals[i] = &c03Real{trzsz.VerifNewBuffer()}
 		}
-		for start := 0; start < len(streams); start += batch {
+		for start := 0; start < len(streams) && len(c.violations) < 40; start += batch {
 			end := min(start+batch, len(streams))
 			outs := make([]*c03Out, end-start)
 			var next atomic.Int64
